@@ -1,6 +1,7 @@
 //! stream `witness` — C35: verification-key witness checks of Shelley-MA, Alonzo, Babbage, Conway.
 //!
 //!   vk <era> <fixture> <mode> W <n|none> (<vkey> <sig> <keyhash> <0|1>)^n I <n> <view>^n R <n|none> <hash>^n N <0|1>
+//!   sy <era> <nin> <req seeds csv|-> W <n|none> (..)^n I <n> <view>^n R <n|none> <hash>^n N 1     (synthesized, own keys)
 //!   rq <era> W <n|none> (<vkey> <sig> <keyhash> <0|1>)^n R <n|none> <hash>^n <msg>
 //!
 //! `vk`: the fixture transaction with its verification-key witnesses replaced by the listed ones (body, and so
@@ -11,9 +12,11 @@
 //! `<keyhash>`, the validity bit, the input views, required signers and the native-script verdict are what the
 //! Lean model's parameters (`hash`, `verify`, `InputView`) are instantiated with; `run_case` recomputes all of
 //! them from the scenario for its own oracle and does not read them from the op.
+//! `sy`: a transaction built by `fixtures::synth` (inputs locked by own keys, required signers in the *body*, everything
+//! signed with own keys, then the witness list mutated) through `validate_txs` — required signers at whole-transaction level.
 //! `rq`: `check_required_signers` alone on arbitrary required signers (Alonzo, Babbage, Conway).
 //! replies: ok | err wit-missing|wrong-sig|req-missing|req-wrong-sig|input-decoding|input-not-in-utxo|script-wit-missing|script-denial|other | panic
-use crate::fixtures::{self, params, txparts, Fixture, InputRef, UtxoEntry};
+use crate::fixtures::{self, params, synth, txparts, Fixture, InputRef, UtxoEntry};
 use crate::fw::*;
 use pallas_addresses::{Address, ShelleyPaymentPart};
 use pallas_codec::minicbor::{self, Decoder, Encoder};
@@ -176,6 +179,21 @@ fn native_ok(f: &Fixture) -> bool {
     shelley_ma::verif_hooks::native_scripts_ok(&wits, &scripts, &x.transaction_body.validity_interval_start, &x.transaction_body.ttl)
 }
 
+fn synth_tx(era: &str, nin: usize, req: &Option<Vec<u8>>, wits: Option<Vec<W>>) -> synth::SynthTx {
+    let e = match era { "shelley" => Era::Shelley, "mary" => Era::Mary, "alonzo" => Era::Alonzo, "babbage" => Era::Babbage, _ => Era::Conway };
+    let coin = |c: u64| synth::SValue { multi: false, coin: c, groups: vec![] };
+    synth::SynthTx {
+        era: e,
+        inputs: (0..nin).map(|i| (100 + i as u8, coin(5_000_000))).collect(),
+        outputs: vec![coin(5_000_000 * nin as u64 - 200_000)],
+        fee: 200_000,
+        mint: None,
+        required_signers: req.clone(),
+        certs: vec![],
+        witnesses: wits,
+    }
+}
+
 fn wits_text(w: &Option<Vec<W>>, msg: &[u8]) -> String {
     match w {
         None => "W none".into(),
@@ -195,8 +213,8 @@ fn mutate(g: &mut Gen, w: &mut Option<Vec<W>>, msg: &[u8], tags: &mut Vec<&'stat
         0 | 1 => { let sk = own_key(g); let pos = g.rng.below(v.len() as u64 + 1) as usize; v.insert(pos, (sk.public_key().as_ref().to_vec(), sk.sign(msg).as_ref().to_vec())); tags.push("add-valid"); }
         2 | 3 => { let pos = g.rng.below(v.len() as u64 + 1) as usize; v.insert(pos, (g.rng.bytes(32), g.rng.bytes(64))); tags.push("add-garbage"); }
         4 if !v.is_empty() => { let i = g.rng.below(v.len() as u64) as usize; let pos = g.rng.below(v.len() as u64 + 1) as usize; let c = v[i].clone(); v.insert(pos, c); tags.push("duplicate"); }
-        5 | 6 if !v.is_empty() => { let i = g.rng.below(v.len() as u64) as usize; let b = g.rng.below(64) as usize; v[i].1[b] ^= 1 << g.rng.below(8); tags.push("corrupt-sig"); }
-        7 if !v.is_empty() => { let i = g.rng.below(v.len() as u64) as usize; let b = g.rng.below(32) as usize; v[i].0[b] ^= 1 << g.rng.below(8); tags.push("corrupt-key"); }
+        5 | 6 if !v.is_empty() => { let i = g.rng.below(v.len() as u64) as usize; let b = g.rng.below(v[i].1.len().max(1) as u64) as usize; if let Some(x) = v[i].1.get_mut(b) { *x ^= 1 << g.rng.below(8); } tags.push("corrupt-sig"); }
+        7 if !v.is_empty() => { let i = g.rng.below(v.len() as u64) as usize; let b = g.rng.below(v[i].0.len().max(1) as u64) as usize; if let Some(x) = v[i].0.get_mut(b) { *x ^= 1 << g.rng.below(8); } tags.push("corrupt-key"); }
         8 if !v.is_empty() => { let i = g.rng.below(v.len() as u64) as usize; v.remove(i); tags.push("drop"); }
         9 if v.len() > 1 => { let i = g.rng.below(v.len() as u64) as usize; let j = g.rng.below(v.len() as u64) as usize; v.swap(i, j); tags.push("reorder"); }
         10 => { let sk = own_key(g); let other = g.rng.bytes(32); v.push((sk.public_key().as_ref().to_vec(), sk.sign(&other).as_ref().to_vec())); tags.push("add-sig-of-other-msg"); }
@@ -223,6 +241,26 @@ pub fn generate(g: &mut Gen) {
             let Some(s) = scenario(f.name, &mode, &w) else { continue };
             let (vs, _) = views(&s);
             ops.push(format!("vk {} {} {} {} I {} {} {} N {}", era_tok(f), f.name, mode, wits_text(&w, &msg), vs.len(), vs.join(" "), req_text(&required_signers(&s)), native_ok(&s) as u8));
+        }
+        // synthesized transactions: required signers in the body, own keys, whole validate_txs
+        for _ in 0..g.rng.range(0, 2) {
+            let era = *g.rng.pick(&["shelley", "mary", "alonzo", "babbage", "conway"]);
+            let nin = g.rng.range(1, 3) as usize;
+            let req: Option<Vec<u8>> = if matches!(era, "shelley" | "mary") || g.rng.chance(1, 4) { None } else {
+                let mut r: Vec<u8> = [100u8, 101, 110, 111].iter().filter(|_| g.rng.chance(1, 2)).cloned().collect();
+                if era == "conway" && r.is_empty() { r.push(110); }
+                Some(r)
+            };
+            let t = synth_tx(era, nin, &req, None);
+            let msg = synth::tx_id(&t);
+            let mut w: Option<Vec<W>> = Some(synth::default_signers(&t).iter().map(|s| { let k = synth::key(*s); (k.pk.clone(), k.sk.sign(&msg).as_ref().to_vec()) }).collect());
+            let mut tags = vec![];
+            for _ in 0..[0u64, 0, 1, 1, 2, 3][g.rng.below(6) as usize] { mutate(g, &mut w, &msg, &mut tags); }
+            if w.is_none() { w = Some(vec![]); }   // the synthesized witness set always has the field
+            let f = synth::build(&synth_tx(era, nin, &req, w.clone()));
+            let (vs, _) = views(&f);
+            ops.push(format!("sy {era} {nin} {} {} I {} {} {} N {}", req.as_ref().map(|r| if r.is_empty() { "e".to_string() } else { r.iter().map(|x| x.to_string()).collect::<Vec<_>>().join(",") }).unwrap_or("-".into()),
+                wits_text(&w, &msg), vs.len(), vs.join(" "), req_text(&required_signers(&f)), native_ok(&f) as u8));
         }
         // required signers alone: arbitrary signer lists against arbitrary witness lists
         for _ in 0..g.rng.range(0, 2) {
@@ -279,10 +317,17 @@ pub fn run_case(case: &Case, out: &mut Out) {
     let (mut acc, mut rej) = (false, false);
     for op in &case.ops {
         match op[0].as_str() {
-            "vk" => {
-                let mode = op[3].as_str();
+            "vk" | "sy" => {
+                let synthetic = op[0] == "sy";
+                let mode = if synthetic { "whole" } else { op[3].as_str() };
                 let (w, _) = parse_wits(&op[4..]);
-                let Some(f) = scenario(&op[2], mode, &w) else { out.reply("bad-op".into()); continue };
+                let f = if synthetic {
+                    let req: Option<Vec<u8>> = match op[3].as_str() { "-" => None, "e" => Some(vec![]), s => Some(s.split(',').map(|x| x.parse().unwrap()).collect()) };
+                    synth::build(&synth_tx(&op[1], op[2].parse().unwrap(), &req, w.clone()))
+                } else {
+                    let Some(f) = scenario(&op[2], mode, &w) else { out.reply("bad-op".into()); continue };
+                    f
+                };
                 let era = era_tok(&f);
                 let res = guard_mut(|| {
                     if mode.starts_with("whole") { return f.validate(); }
@@ -319,7 +364,7 @@ pub fn run_case(case: &Case, out: &mut Out) {
                         out.ok("");
                     }
                 }
-                out.cov(format!("vk:{era}:{mode}"));
+                out.cov(format!("{}:{era}:{mode}", op[0]));
             }
             "rq" => {
                 let era = op[1].as_str();
